@@ -26,6 +26,7 @@ type Call struct {
 	B    string `json:"b,omitempty"` // newname; pattern for CreateTemp/MkdirTemp
 	Flag int    `json:"flag,omitempty"`
 	Perm uint32 `json:"perm,omitempty"` // fs.FileMode bits as given to the call
+	Mode uint32 `json:"mode,omitempty"` // further fs.FileMode bits (file type bits, ModeAppend ...) or'ed as they are into the mode argument: a caller may pass ANY FileMode, e.g. one copied from Stat of another node
 	N    int64  `json:"n,omitempty"`    // size / uid / mtime seconds
 	M    int64  `json:"m,omitempty"`    // gid
 	Data string `json:"data,omitempty"`
@@ -40,12 +41,12 @@ func (c Call) String() string {
 	}
 
 	switch c.Op {
-	case "Mkdir", "MkdirAll", "Chmod":
-		return fmt.Sprintf("%s(%q,%#o)", c.Op, c.A, c.Perm)
+	case "Mkdir", "MkdirAll", "Chmod", "FChmod":
+		return fmt.Sprintf("%s(%q,%s)", c.Op, c.A, c.modeArg())
 	case "OpenFile":
-		return fmt.Sprintf("OpenFile(%q,%s,%#o)", c.A, FlagString(c.Flag), c.Perm)
+		return fmt.Sprintf("OpenFile(%q,%s,%s)", c.A, FlagString(c.Flag), c.modeArg())
 	case "WriteFile":
-		return fmt.Sprintf("WriteFile(%q,%q,%#o)", c.A, c.Data, c.Perm)
+		return fmt.Sprintf("WriteFile(%q,%q,%s)", c.A, c.Data, c.modeArg())
 	case "Truncate":
 		return fmt.Sprintf("Truncate(%q,%d)", c.A, c.N)
 	case "Chown", "Lchown":
@@ -84,6 +85,16 @@ func (c Call) String() string {
 	}
 
 	return fmt.Sprintf("%s(%q)", c.Op, c.A)
+}
+
+// modeArg renders the mode argument: permission and special bits in octal,
+// preceded by the further bits (Mode) in the letters of fs.FileMode.String.
+func (c Call) modeArg() string {
+	if c.Mode == 0 {
+		return fmt.Sprintf("%#o", c.Perm)
+	}
+
+	return fmt.Sprintf("%s|%#o", strings.TrimRight(fs.FileMode(c.Mode).String(), "-"), c.Perm)
 }
 
 // FlagString renders open flags.
@@ -388,9 +399,19 @@ func do(v avfs.VFS, c Call) Res {
 		return do(sv, c)
 	}
 
-	perm := UnixMode(c.Perm)
+	perm := UnixMode(c.Perm) | fs.FileMode(c.Mode)
 
 	switch c.Op {
+	case "FChmod": // Open + File.Chmod + Close
+		f, err := v.OpenFile(c.A, os.O_RDONLY, 0)
+		if err != nil {
+			return errRes(err)
+		}
+
+		err = f.Chmod(perm)
+		_ = f.Close()
+
+		return errRes(err)
 	case "Mkdir":
 		return errRes(v.Mkdir(c.A, perm))
 	case "MkdirAll":
